@@ -97,6 +97,54 @@ def sweep():
     return n, fails
 
 
+def relies_sweep(depth=5):
+    """The proof of GroupCoordinator.__coordination_routine assumes, after every suspension, three facts about what the
+    application's calls keep true of the subscription objects (DESIGN I.4). Every sequence of up to `depth` calls of
+    subscribe / subscribe_pattern / assign_from_user / unsubscribe / assign_from_subscribed / begin_reassignment on a real
+    SubscriptionState: after each call, over every Subscription object ever created."""
+    import itertools
+    import re
+    from aiokafka.consumer.subscription_state import SubscriptionState, ManualSubscription
+    from aiokafka.structs import TopicPartition
+    from aiokafka.errors import IllegalStateError
+    ops = {
+        "subscribe(a)": lambda s: s.subscribe({"a"}),
+        "subscribe(b)": lambda s: s.subscribe({"b"}),
+        "pattern": lambda s: s.subscribe_pattern(re.compile("a.*")),
+        "assign": lambda s: s.assign_from_user({TopicPartition("a", 0)}),
+        "unsubscribe": lambda s: s.unsubscribe(),
+        "assigned-by-group": lambda s: s.assign_from_subscribed({TopicPartition(t, 0) for t in (s.subscription.topics or {"a"})}),
+        "begin-reassignment": lambda s: s.begin_reassignment(),
+    }
+    fails, n = [], 0
+
+    async def main():
+        nonlocal n
+        for seq in itertools.product(sorted(ops), repeat=depth):
+            st = SubscriptionState()
+            seen = []
+            for i, name in enumerate(seq):
+                try:
+                    ops[name](st)
+                except (IllegalStateError, AttributeError, AssertionError, ValueError):
+                    break                      # a call the API refuses in this state: the sequence ends here
+                n += 1
+                cur = st.subscription
+                if cur is not None and cur not in seen:
+                    seen.append(cur)
+                for sub in seen:
+                    if sub.active and sub.assignment is not None and not sub.assignment.active:
+                        fails.append("%r: an active subscription holds a retired assignment" % (seq[:i + 1],))
+                    if sub.active and sub is not cur:
+                        fails.append("%r: a subscription that is not the current one is still active" % (seq[:i + 1],))
+                    if isinstance(sub, ManualSubscription) and sub.assignment is None:
+                        fails.append("%r: a manual subscription without its assignment" % (seq[:i + 1],))
+                if len(fails) > 5:
+                    return
+    asyncio.run(main())
+    return n, fails
+
+
 def main():
     ap = argparse.ArgumentParser()
     ap.add_argument("--tier", default="quick")
@@ -108,6 +156,21 @@ def main():
                    "2^40, error codes 6, 3 (retriable), 1, 29 (not); code 43 is answered to timestamp searches only and not swept (the reset path has no entry for it: KeyError, noted in DESIGN I.7, round 8); reset by policy (nothing committed, served as the commit-refresh routine does) and by seek_to_beginning/end; "
                    "an empty v0 offset list (no conforming broker answers earliest/latest with it) is not part of the sweep",
           "failures": fails[:10], "replay": {"script": REPLAY}})
+    n, fails = relies_sweep()
+    emit({"name": "subscription-relies-of-the-coordination-routine", "exhaustive": True, "cases": n, "distinct_nontrivial": n,
+          "bound": "every sequence of up to 5 calls out of subscribe(a), subscribe(b), subscribe_pattern, assign_from_user, unsubscribe, "
+                   "assign_from_subscribed, begin_reassignment on a real SubscriptionState; the three relies of the __coordination_routine "
+                   "contract checked after every call over every Subscription object created so far",
+          "failures": fails[:10], "replay": {"script": REPLAY_RELIES}})
+
+
+REPLAY_RELIES = '''
+import sys
+sys.path.insert(0, "/verif")
+from bounded import C13
+n, fails = C13.relies_sweep()
+VIOLATED = bool(fails); DETAIL = "%d of %d states break an assumption the coordination routine's proof relies on; first: %r" % (len(fails), n, fails[:2])
+'''
 
 
 REPLAY = '''
